@@ -276,6 +276,53 @@ func c06MergeUnstable(l, r *c06Ty) bool {
 	return mapped != nil && mapped.K != c06Any && fresh >= 2
 }
 
+// c06MergeConflict reports whether Merge(l, r) combines a property both sides know with different
+// types. Then the merged property (any, string for number+string, the union for two closed
+// objects) says less than one side alone, and FORGETTING the properties of the other side brings
+// the remaining side's own type back: with such a merge "object -> open object without known
+// properties" is not a loosening of what the checker computes. (Guidance for the generators.)
+func c06MergeConflict(l, r *c06Ty) bool {
+	if l.K == c06Arr && r.K == c06Arr {
+		return c06TypesDiffer(l.Elem, r.Elem)
+	}
+	if l.K != c06Obj || r.K != c06Obj {
+		return false
+	}
+	for i, n := range r.Names {
+		if p := l.prop(n); p != nil && c06TypesDiffer(p, r.Props[i]) {
+			return true
+		}
+	}
+	return false
+}
+
+// c06TypesDiffer: structural inequality. Two closed objects with different member sets also count:
+// their Merge is the union, and with one side forgotten the other side's smaller closed object
+// remains, in which a member only the forgotten side knew is reported.
+func c06TypesDiffer(a, b *c06Ty) bool {
+	if a.K != b.K {
+		return true
+	}
+	switch a.K {
+	case c06Arr:
+		return c06TypesDiffer(a.Elem, b.Elem)
+	case c06Obj:
+		if len(a.Names) != len(b.Names) || (a.Mapped == nil) != (b.Mapped == nil) {
+			return true
+		}
+		if a.Mapped != nil && c06TypesDiffer(a.Mapped, b.Mapped) {
+			return true
+		}
+		for i, n := range a.Names {
+			p := b.prop(n)
+			if p == nil || c06TypesDiffer(a.Props[i], p) {
+				return true
+			}
+		}
+	}
+	return false
+}
+
 // ---------------------------------------------------------------------------
 // Environment: the types given to the six Update* methods (+ optional workflow_dispatch inputs)
 
@@ -320,11 +367,21 @@ func (e *c06Env) Map() map[string]string {
 	return m
 }
 
+// loosening classes
+const (
+	c06ToAny     = iota // one type occurrence -> any
+	c06OpenObj          // closed object -> open object with the same known properties
+	c06ForgetObj        // object -> open object without known properties ({string => any})
+	c06MapStrObj        // closed object whose members are all strings -> {string => string}
+)
+
+var c06ModeNames = []string{"to-any", "open-object", "object-to-open-empty", "string-object-to-string-map"}
+
 // c06Site is one place of an environment where a single loosening applies.
 type c06Site struct {
 	Root  int   // index into Ty, or -1 for Dispatch
 	Steps []int // >=0 property index, -1 Mapped, -2 Elem
-	Open  bool  // true: closed object -> open object; false: type -> any
+	Mode  int   // c06ToAny, c06OpenObj, c06ForgetObj, c06MapStrObj
 	Path  string
 	Was   string
 }
@@ -335,10 +392,33 @@ func (e *c06Env) sites() []c06Site {
 	walk = func(root int, t *c06Ty, steps []int, path string, isRoot bool) {
 		cp := append([]int(nil), steps...)
 		if !isRoot && t.K != c06Any {
-			out = append(out, c06Site{root, cp, false, path, t.String()})
+			out = append(out, c06Site{root, cp, c06ToAny, path, t.String()})
 		}
 		if t.isStrict() {
-			out = append(out, c06Site{root, cp, true, path, t.String()})
+			out = append(out, c06Site{root, cp, c06OpenObj, path, t.String()})
+		}
+		// Forgetting the known properties. Not at the root of `secrets` and of the workflow_dispatch
+		// inputs: UpdateSecrets and UpdateDispatchInputs (github.event.inputs) read only the known
+		// properties of their argument and ignore whether it is open, so an open argument without
+		// properties is not "the same object left open" for them (excluded class, see report).
+		forgetOK := !(isRoot && (root < 0 || c06CtxNames[root] == "secrets"))
+		if isRoot && root >= 0 && c06CtxNames[root] == "inputs" && e.Dispatch != nil && c06MergeConflict(t, e.Dispatch) {
+			// UpdateDispatchInputs merges into `inputs`; see c06MergeConflict
+			forgetOK = false
+		}
+		if t.K == c06Obj && forgetOK && !(t.isLoose() && len(t.Names) == 0) {
+			out = append(out, c06Site{root, cp, c06ForgetObj, path, t.String()})
+		}
+		if t.isStrict() && forgetOK && len(t.Names) > 0 {
+			allStr := true
+			for _, p := range t.Props {
+				if p.K != c06Str {
+					allStr = false
+				}
+			}
+			if allStr {
+				out = append(out, c06Site{root, cp, c06MapStrObj, path, t.String()})
+			}
 		}
 		switch t.K {
 		case c06Obj:
@@ -381,9 +461,14 @@ func (e *c06Env) loosen(s c06Site) *c06Env {
 			slot = &t.Elem
 		}
 	}
-	if s.Open {
+	switch s.Mode {
+	case c06OpenObj:
 		(*slot).Mapped = &c06Ty{K: c06Any}
-	} else {
+	case c06ForgetObj:
+		*slot = &c06Ty{K: c06Obj, Mapped: &c06Ty{K: c06Any}}
+	case c06MapStrObj:
+		*slot = &c06Ty{K: c06Obj, Mapped: &c06Ty{K: c06Str}}
+	default:
 		*slot = &c06Ty{K: c06Any}
 	}
 	return n
